@@ -74,6 +74,13 @@ def configs(tier):
                     if (f == "full" and b != "direct") or (len(shape) == 3 and int(np.prod(shape)) > 8):
                         continue
                     out.append(dict(kind="first_reuse", shape=shape, form=f, backend=b))
+    # the system matrix handed over in CSR layout (linear_solve accepts any scipy sparse matrix)
+    for shape in ([3], [2, 2]) + (() if tier == "quick" else ([3, 2], [2, 1, 2])):
+        for f in FORMS:
+            for b in BACKENDS:
+                if f == "full" and b != "direct":
+                    continue
+                out.append(dict(kind="solve", shape=shape, form=f, backend=b, layout="csr"))
     for f in FORMS + ["flux-reduced"]:
         out.append(dict(kind="names", form=f))
     return out
@@ -134,6 +141,8 @@ def body(cfg):
     nf, nc = int(grid.num_faces), int(grid.num_cells)
     w = S.array("w", nf, lo="1/100", hi=10)
     A = _system(w1, w)
+    if cfg.get("layout") == "csr":
+        A = A.tocsr()
     if cfg["kind"] == "unique":
         # the homogeneous system has only the zero solution => every exact back-end and every
         # formulation returns the same flux, pressure and multiplier
@@ -193,6 +202,9 @@ def body(cfg):
     sol3, _ = w1.linear_solve(A2, rhs3.copy(), reuse_solver=True)
     a, b_, c_ = _residual_ok(A2, sol3, rhs3, nf, nc)
     S.claim("same_matrix_with_reuse_is_solved_correctly", S.and_(a, b_, c_))
+    # a caller that still holds the solution of the previous system: later solves must not overwrite it
+    a, b_, c_ = _residual_ok(A2, sol2, rhs2, nf, nc)
+    S.claim("earlier_solution_is_left_intact_by_later_solves", S.and_(a, b_, c_, sol2 is not sol3))
     if S.instrumented() and cfg["backend"] != "cg":
         S.claim("reuse_does_not_set_up_again", sum(1 for bk, ev in LOG if ev == "setup") == n_setups)
     # ---- a fourth: back to the first matrix without reuse
@@ -221,6 +233,8 @@ def body_names(cfg, darsia):
     nf, nc = int(grid.num_faces), int(grid.num_cells)
     w = S.array("w", nf, lo="1/100", hi=10)
     A = _system(w1, w)
+    if cfg.get("layout") == "csr":
+        A = A.tocsr()
     rhs = _rhs("b", nf, nc)
     try:
         sol, _ = w1.linear_solve(A, rhs.copy())
